@@ -41,6 +41,9 @@ var genLists = map[string]func(tier string) *caseList{}
 type genTask struct {
 	From int `json:"f"`
 	To   int `json:"t"`
+	// Skip: input classes in which two cases have already hung a worker; further cases of the class
+	// are not run (counted as not applicable) - every one of them would cost a watchdog period
+	Skip []string `json:"skip,omitempty"`
 }
 
 type genTaskResult struct {
@@ -53,6 +56,7 @@ type genTaskResult struct {
 	VIdx   []int        `json:"vi"`
 	VCount map[string]int `json:"vc"`
 	Died   bool         `json:"died,omitempty"`
+	Hung   *int         `json:"hung,omitempty"` // the worker's watchdog fired while running this case
 }
 
 var genProgress int64
@@ -70,9 +74,14 @@ func genWorker(prop, tier string) {
 				last, since = cur, time.Now()
 				continue
 			}
-			if time.Since(since) > 45*time.Second && atomic.LoadInt64(&workerBusy) == 1 {
-				fmt.Fprintf(os.Stderr, "WATCHDOG: case %v makes no progress for 45 s; goroutine dump follows\n", genCurrent.Load())
+			if time.Since(since) > 20*time.Second && atomic.LoadInt64(&workerBusy) == 1 {
+				fmt.Fprintf(os.Stderr, "WATCHDOG: case %v makes no progress for 20 s; goroutine dump follows\n", genCurrent.Load())
 				pprof.Lookup("goroutine").WriteTo(os.Stderr, 2)
+				// tell the parent which case it was, so that it does not have to bisect with one
+				// watchdog period per step
+				if idx, ok := genCurrent.Load().(int); ok {
+					fmt.Fprintf(protoOut, "{\"hung\":%d}\n", idx)
+				}
 				os.Exit(3)
 			}
 		}
@@ -90,8 +99,17 @@ func genWorker(prop, tier string) {
 		}
 		out := genTaskResult{Task: t, VCount: map[string]int{}}
 		atomic.StoreInt64(&workerBusy, 1)
+		skip := map[string]bool{}
+		for _, c := range t.Skip {
+			skip[c] = true
+		}
 		for i := t.From; i < t.To; i++ {
 			genCurrent.Store(i)
+			if len(skip) > 0 && cl.Class != nil && skip[cl.Class(i)] {
+				atomic.AddInt64(&genProgress, 1)
+				out.Skip++
+				continue
+			}
 			r := cl.Run(i)
 			atomic.AddInt64(&genProgress, 1)
 			out.Units += r.Units
@@ -135,7 +153,9 @@ func runGen(prop, tier string, chunk int, rep *Report) (ok, nontrivial, units in
 		tasks <- j
 	}
 	close(tasks)
-	results := make(chan genTaskResult, len(jobs))
+	results := make(chan genTaskResult, len(jobs)+4096)
+	var hungMu sync.Mutex
+	hungClasses := map[string]int{}
 	deadline := time.Now().Add(tierBudget(tier))
 	expired := false
 	var wg sync.WaitGroup
@@ -158,12 +178,40 @@ func runGen(prop, tier string, chunk int, rep *Report) (ok, nontrivial, units in
 				for len(pending) > 0 {
 					cur := pending[0]
 					pending = pending[1:]
+					hungMu.Lock()
+					cur.Skip = nil
+					for c, n := range hungClasses {
+						if n >= 2 {
+							cur.Skip = append(cur.Skip, c)
+						}
+					}
+					hungMu.Unlock()
 					js, _ := json.Marshal(cur)
 					wp.in.Write(append(js, '\n'))
 					line, err := wp.out.ReadBytes('\n')
 					var r genTaskResult
 					if err == nil {
 						err = json.Unmarshal(line, &r)
+					}
+					if err == nil && r.Hung != nil {
+						// the worker named the case that hangs: record it, run the rest of the task
+						h := *r.Hung
+						if cl.Class != nil {
+							hungMu.Lock()
+							hungClasses[cl.Class(h)]++
+							hungMu.Unlock()
+						}
+						wp.cmd.Process.Kill()
+						wp.cmd.Wait()
+						wp, _ = startWorker("genworker", prop, tier)
+						results <- genTaskResult{Task: genTask{From: h, To: h + 1}, Died: true, VCount: map[string]int{}}
+						if h > cur.From {
+							pending = append(pending, genTask{From: cur.From, To: h})
+						}
+						if h+1 < cur.To {
+							pending = append(pending, genTask{From: h + 1, To: cur.To})
+						}
+						continue
 					}
 					if err != nil {
 						wp.cmd.Process.Kill()
@@ -173,7 +221,7 @@ func runGen(prop, tier string, chunk int, rep *Report) (ok, nontrivial, units in
 							results <- genTaskResult{Task: cur, Died: true, VCount: map[string]int{}}
 						} else {
 							mid := (cur.From + cur.To) / 2
-							pending = append(pending, genTask{cur.From, mid}, genTask{mid, cur.To})
+							pending = append(pending, genTask{From: cur.From, To: mid}, genTask{From: mid, To: cur.To})
 						}
 						continue
 					}
